@@ -51,6 +51,20 @@ func Damage(raw []byte, integ string) []byte {
 			v += int(b)
 		}
 		i := len(out) - 2
+		if v%4 == 3 {
+			// a fourth shape: BeginString and BodyLength moved behind the content (just ahead of the CheckSum field), with
+			// values that "agree arithmetically" with the bytes between the framing fields - not a framed message all the same
+			a := bytes.Index(raw, []byte("\x019=")) + 1
+			a += bytes.IndexByte(raw[a:], 1) + 1
+			content := raw[a : len(raw)-7]
+			d := append([]byte{}, content...)
+			d = append(d, []byte("8=FIX.4.4\x019="+strconv.Itoa(len(content))+"\x01")...)
+			sum := 0
+			for _, b := range d {
+				sum += int(b)
+			}
+			return append(d, []byte(fmt.Sprintf("10=%03d\x01", sum%256))...)
+		}
 		switch v % 3 {
 		case 0:
 			if out[i] == '9' {
@@ -216,6 +230,11 @@ func Inbound(a *Action, peerID, ourID string, ts string) []byte {
 		if a.Extra == 8 {
 			fields = []Field{F("350", "A"), F("35", ty), F("340", "1"), F("349", "77"), F("49", peerID), F("56", ourID)}
 		}
+	}
+	if a.Extra == 9 {
+		// optional standard header fields of a counterparty that routes through a hub: TargetSubID (57), PossResend (97),
+		// OnBehalfOfCompID / SubID (115, 116) - their tags end in the digits of BeginSeqNo (7) and EndSeqNo (16)
+		fields = []Field{F("35", ty), F("49", peerID), F("56", ourID), F("57", "DESK7"), F("97", "N"), F("115", "HUB"), F("116", "SUB16")}
 	}
 	if a.Extra == 3 {
 		fields = []Field{F("35", ty), F("56", ourID), F("49", peerID)}
